@@ -14,7 +14,7 @@ func init() {
 	register(&propertyDef{
 		id:    "C01",
 		title: "every run terminates with one output or an error",
-		rules: []ruleFunc{c01R1, c01R2, c01R3, c01R4, c01R5, c01R6, c01R7, c01R8, c01R9, c01R10, c01R11, c01R12, c01R13},
+		rules: []ruleFunc{c01R1, c01R2, c01R3, c01R4, c01R5, c01R6, c01R7, c01R8, c01R9, c01R10, c01R11, c01R12, c01R13, c01R14},
 		decided: "the deadlock-freedom and single-hand-over disciplines termination depends on: single guarded send of the workflow output under the run lock (R1); " +
 			"no blocking channel operation, Wait or Sleep while the run lock or a step lock is held, error reports non-blocking (R2); lock order run-lock -> step-lock only, " +
 			"no handler callback under a step lock, no Close/Wait under a lock (R3); Execute registers the terminate-all teardown on every path after the first step start (R4); " +
@@ -896,7 +896,7 @@ func c01R8(c *Ctx) {
 // C01.R9 a step that blocks waiting for input has announced it.
 func c01R9(c *Ctx) {
 	const rule = "C01.R9"
-	c.explain("C01.R9 the fallback deadlock detection only runs while a stage notification is processed. On every explored path of a step goroutine: when it blocks on an input channel in state waiting_for_input, the most recent detector-triggering notification it sent (a stage change with a previous stage, or a completion) was already sent in that state — otherwise the last check of a run can see the step `running` and nothing ever ends a run whose remaining inputs can never arrive. (The first stage, which has no such notification before it, is outside this rule: documented gap.)")
+	c.explain("C01.R9 the fallback deadlock detection only runs while a stage notification is processed. On every explored path of a step goroutine: when it blocks on an input channel in state waiting_for_input, the most recent detector-triggering notification it sent (a stage change with a previous stage, or a completion) was already sent in that state — otherwise the last check of a run can see the step `running` and nothing ever ends a run whose remaining inputs can never arrive. (The first stage, which has no such notification before it, is outside this part: documented gap.) And it never blocks on an input while its state still reads `starting`, which the detector counts as active.")
 	inputs := map[string]bool{"deployInput": true, "enabledInput": true, "runInput": true, "executeInput": true}
 	for _, prov := range []string{"plugin", "foreach"} {
 		ts := c.stepTraces(prov)
@@ -910,6 +910,7 @@ func c01R9(c *Ctx) {
 		}
 		nBlock := 0
 		bad := map[string][]pevent{}
+		stillStarting := map[string][]pevent{}
 		for _, t := range ts.traces {
 			cur := "starting"
 			lastNotif := ""
@@ -944,6 +945,13 @@ func c01R9(c *Ctx) {
 							bad[ch] = t
 						}
 					}
+					// `starting` is the state of a step whose goroutine has not got going yet; the detector counts it as
+					// active. A goroutine that parks on an input while the state still reads `starting` is never seen idle
+					if cur == "starting" {
+						if _, dup := stillStarting[ch]; !dup {
+							stillStarting[ch] = t
+						}
+					}
 				}
 			}
 		}
@@ -953,6 +961,14 @@ func c01R9(c *Ctx) {
 				c.bad(rule, key, c.pos(ts.root.Pos()), "the step goroutine enters `waiting_for_input` for "+name+" after its last stage notification (which was sent in another state): the deadlock detection that runs with that notification sees the step busy, and if no other step produces an event afterwards nothing ends a run whose remaining inputs can never arrive — Execute blocks forever", traceString(t))
 			} else {
 				c.ok(rule, key, c.pos(ts.root.Pos()), "whenever the step blocks on "+name+" in state waiting_for_input, its last detector-triggering notification was sent in that state", true)
+			}
+		}
+		for name := range inputs {
+			key := "not-starting:" + prov + ":" + name
+			if t, isBad := stillStarting[name]; isBad {
+				c.bad(rule, key, c.pos(ts.root.Pos()), "the step goroutine blocks on "+name+" while its state still reads `starting`: the fallback detector counts a starting step as active, so when that input can never arrive (its producer was disabled or failed in a way the DAG cannot propagate) nothing ever ends the run — Execute blocks forever", traceString(t))
+			} else {
+				c.ok(rule, key, c.pos(ts.root.Pos()), "the step never blocks on "+name+" in state `starting`", true)
 			}
 		}
 		c.minCount(rule, "blocking input waits on explored "+prov+" paths", nBlock, 4)
